@@ -77,4 +77,11 @@ CHECKS["C17"] = dict(
     note="Whether a mutating call fails or succeeds without effect is not prescribed and not compared; fstest.MapFS mounts are not covered (nothing on the host to change).",
 )
 
+CHECKS["C18"] = dict(
+    technique="TLA+ model of the default sys context (SysDefaults.tla: per-instance fake clocks indexed by reading count, fixed random stream by offset, empty args/environ/stdin, discarded output, no preopens); TLC-generated guest programs executed through the proxy guest in separate processes with different host environments; every observation compared with the model and across processes/engines/instances",
+    text="TLC enumerates all pairs of WASI calls and seeded programs of 14-40 calls (clocks incl. invalid ids, resolutions, random_get, args/environ, stdin, stdout/stderr, prestat/path_open/readdir/sock_accept on descriptor 3+, fdstat, poll_oneoff with clock subscriptions, sched_yield) and predicts each observation: the k-th reading of each fake clock OF THAT INSTANCE, the random stream offset, EOF, EBADF, zero sizes. Each program runs in three processes started at different times with different TZ (a generated zone file 9 h east), environment, arguments, stdin content and working directory, on both engines, in two instances created from ONE ModuleConfig value; errno and values are compared with the model, random bytes by equality of the stream across all runs and instances, planted host secrets must not appear, a clock-subscription poll must not sleep.",
+    design_ref="§4 C18",
+    note="Clock values are reduced to ms since the fake epoch by the driver; the random stream is opaque to the model; Linux only.",
+)
+
 NOT_YET = "check not built yet in this round (work in progress; see DESIGN.md §4)"
